@@ -196,6 +196,7 @@ def run(c, chk):
     if narg:
         chk.ok('R14.4', 'argument states', '%d accepting paths: one cfg_addval + strdup(token text) stored into the new slot' % narg)
     chk.floor('R14.4 argument-append paths', narg, 1)
+    ncallfn = 0
     for s in model.states:
         for tr in model.transitions(s, T[')']):
             cf = [e for e in tr.events if e.kind == 'call' and e.name == 'call_function']
@@ -208,6 +209,17 @@ def run(c, chk):
                     chk.fail('R14.1', 'func-untested:state%d' % s, c.where(e.ins), 'state %d ignores the result of the function callback' % s)
                 elif verdict and not (tr.kind == 'ret' and tr.ret == 1):
                     chk.fail('R14.1', 'func-veto:state%d' % s, c.where(e.ins), 'state %d: a failing function callback does not stop the parse' % s)
+                # the buffered arguments belong to this call only: the buffer is empty again when the parser goes on
+                if tr.kind == 'next':
+                    ncallfn += 1
+                    after = tr.events[tr.events.index(e) + 1:]
+                    emptied = any(x.kind == 'call' and x.name == 'cfg_free_value' and x.args and x.args[0] == e.args[2] for x in after)
+                    if not emptied and not callee_empties_args(c, ex):
+                        chk.fail('R14.4', 'args-not-reset:state%d' % s, c.where(e.ins),
+                                 'after the function callback has run the argument buffer is not emptied before the parser continues: the next function call on the '
+                                 'same level receives the arguments of this one in front of its own')
+
+    chk.floor('R14.4 continuing transitions that call the function callback', ncallfn, 1)
 
     # ---- R14.5 -----------------------------------------------------------------------------
     for fname, setter in (('cfg_setnint', 'cfg_opt_setnint'), ('cfg_setnfloat', 'cfg_opt_setnfloat'), ('cfg_setnstr', 'cfg_opt_setnstr')):
@@ -255,6 +267,7 @@ def run(c, chk):
             chk.fail('R14.5', 'validcb2-missing:%s' % fname, c.where(fn), '%s() never consults the pre-set validation callback' % fname)
 
     # ---- R14.6 -----------------------------------------------------------------------------
+    walker_template(c, chk, ex)
     for fname, fld in (('cfg_set_validate_func', 'validcb'), ('cfg_set_validate_func2', 'validcb2')):
         fn = c.need(fname)
         walker = [x for x in fn.calls('cfg_getopt_array')]
@@ -307,3 +320,63 @@ def call_function_args(c, chk, ex):
         chk.ok('R14.4', 'call_function', 'func(cfg, opt, funcopt->nvalues, argv) with argv[i] = funcopt->values[i]->string on %d paths' % good, sample=True)
     else:
         chk.fail('R14.4', 'func-missing', c.where(fn), 'call_function() never calls the function callback')
+
+
+def callee_empties_args(c, ex):
+    """does call_function() release the buffered arguments on every returning path on which it called the callback"""
+    fn = c.need('call_function')
+    n = 0
+    for p in ex.explore(fn):
+        if p.end != 'ret':
+            continue
+        cb = [i for i, e in enumerate(p.events) if e.kind == 'call' and e.name == 'indirect:func']
+        if not cb:
+            continue
+        n += 1
+        if not any(x.kind == 'call' and x.name == 'cfg_free_value' and x.args and x.args[0] == ('p', 'funcopt') for x in p.events[cb[0]:]):
+            return False
+    return n > 0
+
+
+def walker_template(c, chk, ex):
+    """registration on a path through a multi section must land in the section template (the option's sub-option
+    table), from which every later instance is built - never in the private copy of one existing instance"""
+    from .. import loops as _loops
+    chk.rule('R14.7', 'the schema walker descends into an existing instance only for a single (non-multi) section, decided on that section option\'s own flags')
+    fn = c.need('cfg_getopt_array')
+    n = 0
+    bad = None
+    for h in sorted(_cfg.natural_loops(fn)):
+        for p in _loops.iterate(ex, fn, h):
+            if p.end != 'stop':
+                continue
+            nxt = p.next.get('opts')
+            if nxt is None or not sym.mentions(nxt, lambda v: v[0] == 'call' and v[1] == 'cfg_opt_getnsec'):
+                continue
+            n += 1
+            inst = next(e for e in p.events if e.kind == 'call' and e.name == 'cfg_opt_getnsec' and sym.mentions(nxt, lambda v: v == e.res))
+            secopt = inst.args[0]
+            want = ('ld', ('fld', secopt, 'cfg_opt_t', 'flags'))
+            single = False
+            for cn, t, _ in p.assume:
+                d = pm.describe_cond(cn)
+                if d.endswith('has MULTI') and sym.mentions(sym.norm(cn), lambda v: v == sym.norm(want)) and t is False:
+                    single = True
+                if d.startswith('not(') and d.endswith('has MULTI)') and sym.mentions(sym.norm(cn), lambda v: v == sym.norm(want)) and t is True:
+                    single = True
+            if not single:
+                bad = bad or (p, inst)
+    if bad:
+        p, inst = bad
+        chk.fail('R14.7', 'walker-instance', c.where(inst.ins),
+                 'cfg_getopt_array() continues in the option table of an existing section instance without having established that the section option is not '
+                 'CFGF_MULTI (%s): a callback registered through a multi section lands on that one instance only and sections stored later never run it'
+                 % fp_cond(p))
+    elif n:
+        chk.ok('R14.7', 'cfg_getopt_array: %d descending paths' % n, 'instance table used only under !CFGF_MULTI of the section option itself; otherwise the template', sample=True)
+    chk.floor('R14.7 paths descending into an instance', n, 1)
+
+
+def fp_cond(p):
+    from .. import failpaths as fp
+    return fp.cond_text(p, 5)
